@@ -1,5 +1,6 @@
 import SifVerif.Proofs.Torn
 import SifVerif.Proofs.Fault
+import SifVerif.Proofs.RangesStep
 /-!
 # C09 — interrupted modifications never damage other objects
 
@@ -403,6 +404,20 @@ theorem C09_every_interruption (s : Img) (W : WF s) (P : Placed s) (R : Ranges s
       obtain ⟨s2, hl, hb⟩ := flush_crash_full s W R _ (plan_mem sha ph s (WF.mem s W) op now hok) (R' hok)
         hdd hll (plan_dsize sha ph s op now) hne Cold (clean_plan sha ph s W Cold op now) s1 st' S1 h2
       exact ⟨s2, hl, fun i d hd hd' => hb i d hd (hd' hok)⟩
+
+/-- the same with the representability of the operation's result discharged: it follows from
+    the representability of the operation's *inputs* (`Op.InRange`) and "no live object ends beyond
+    int64" (`Ranges_plan`) -/
+theorem C09_every_interruption_inputs (s : Img) (W : WF s) (P : Placed s) (R : Ranges s) (E : EndsOK s)
+    (op : Op) (now : Int) (hin : Op.InRange s op now)
+    (hne : s.rds ≠ []) (Cold : CleanSlots s.rds)
+    (st' : Store) (hc : CrashOf s.st (plan sha ph s op now).1 st') :
+    ∃ s2, loadContainer st' = .ok s2 ∧
+      ∀ (i : Nat) (d : RawDesc), s.rds[i]? = some d →
+        ((plan sha ph s op now).2.2 = .ok → (plan sha ph s op now).2.1.rds[i]? = some d) →
+        s2.rds[i]? = some d :=
+  C09_every_interruption sha ph s W P R op now
+    (fun _ => (Ranges_plan sha ph s W R E op now hin).1) hne Cold st' hc
 
 /-- **C09, an I/O error is returned**: if some call of the plan fails, the operation's result is
     the I/O error, and the store is the one the calls before the failure left. -/
